@@ -1,6 +1,9 @@
-(* Model/Harmonics.v — hand-written model of the parts of SignalProcessing/periodic_functions.py that are not
-   translated: AbstractHarmonicCoefficients.{amplitude, phase, a, b, c}, fourier_series, periodic_function.
-   The translator (tools/gen_periodic.py) pins the exact source text of these definitions and fails if it changes.
+(* Model/Harmonics.v — hand-written model of AbstractHarmonicCoefficients.{amplitude, phase, a, b, c}, fourier_series and
+   periodic_function of SignalProcessing/periodic_functions.py.
+   The translator (tools/gen_periodic.py) also TRANSLATES the five generic methods and periodic_function (Gen/Periodic.v:
+   abstract_amplitude .. abstract_c, lookup_periodic_function); Theory/PeriodicGenThm.v / Properties/C08c.v prove them equal
+   to the definitions below.  Only fourier_series (and the header, fields and abstract stubs of the class) are still pinned
+   by their exact source text: the translator fails if that text changes.
    Generic in the record of real operations [O] and in the two coefficient functions.
    Complex numbers are pairs (re, im); np.exp(1j*x) = (cos x, sin x); -1j*x has imaginary part -x. *)
 From Coq Require Import ZArith NArith List Bool.
